@@ -328,3 +328,175 @@ Proof.
     rewrite Forall_forall in *. intros x Hx. apply Hf. apply (in_map (fun x : coord * trie => bucket s (fst x))) in Hx. exact Hx.
   - intros a Ha. apply nodup_In. apply (in_map (fun ct : coord * trie => bucket s (fst ct))) in Ha. exact Ha.
 Qed.
+
+(* ---------- 4. lookups ---------- *)
+(* the payload at a path of a Nest trie *)
+Fixpoint nlookup (zs : list Z) (t : trie) : option Z :=
+  match zs, t with
+  | [], Leaf v => Some v
+  | c :: zs', Node l => match lookup c l with Some t' => nlookup zs' t' | None => None end
+  | _, _ => None
+  end.
+
+Lemma alookup_to_rt c l : Rt.alookup (Rt.VInt c) (map to_rt_ct l) = option_map to_rt (lookup c l).
+Proof.
+  induction l as [|[c' t] l IH]; [reflexivity|]. cbn [map to_rt_ct Rt.alookup lookup fst snd]. rewrite RtLaws.veqb_int.
+  destruct (c =? c'); [reflexivity|exact IH].
+Qed.
+
+(* RtLaws.zl (the runtime model's lookup along integer coordinates) on an embedded trie is the Nest lookup *)
+Lemma zl_to_rt : forall zs t, RtLaws.zl zs (to_rt t) = option_map Rt.VInt (nlookup zs t).
+Proof.
+  induction zs as [|c zs IH]; intros [v|l]; try reflexivity.
+  rewrite to_rt_node, RtLaws.zl_cons, alookup_to_rt. cbn [nlookup]. destruct (lookup c l); cbn [option_map]; [apply IH|reflexivity].
+Qed.
+
+(* Nest.den is the lookup at the coordinates of the point (0 on a miss) *)
+Lemma den_nlookup : forall rs t p, den rs t p = match nlookup (map p rs) t with Some v => v | None => 0 end.
+Proof.
+  induction rs as [|r rs IH]; intros [v|l] p; cbn [den map nlookup]; try reflexivity.
+  destruct (lookup (p r) l); [apply IH|reflexivity].
+Qed.
+
+Definition rt_den (zs : list Z) (T : Rt.trie) : Z := match RtLaws.zl zs T with Some (Rt.VInt v) => v | _ => 0 end.
+
+Lemma den_rt rs t p : den rs t p = rt_den (map p rs) (to_rt t).
+Proof. unfold rt_den. rewrite zl_to_rt, den_nlookup. destruct (nlookup (map p rs) t); reflexivity. Qed.
+
+Lemma lookup_map_snd (g : trie -> trie) x l :
+  lookup x (map (fun ct => (fst ct, g (snd ct))) l) = option_map g (lookup x l).
+Proof. induction l as [|[c t] l IH]; [reflexivity|]. cbn [map lookup fst snd]. destruct (x =? c); [reflexivity|exact IH]. Qed.
+
+(* in the split trie, (.., u, c, ..) holds what (.., c, ..) held when u is the bucket of c, and nothing otherwise
+   (no hypothesis on the trie: a fact of the abstraction) *)
+Lemma nlookup_split_at : forall d s t pre u c post, List.length pre = d ->
+  nlookup (pre ++ u :: c :: post) (split_at d s t) = if u =? bucket s c then nlookup (pre ++ c :: post) t else None.
+Proof.
+  induction d as [|d IH]; intros s t pre u c post Hlen.
+  - destruct pre; [|discriminate]. cbn [app]. destruct t as [v|l]; [cbn; destruct (u =? bucket s c); reflexivity|].
+    cbn [split_at nlookup]. rewrite lookup_split_node.
+    destruct (existsb (fun ct => bucket s (fst ct) =? u) l) eqn:Hex.
+    + cbn [nlookup]. rewrite lookup_filter_bucket. rewrite (Z.eqb_sym u). destruct (bucket s c =? u); reflexivity.
+    + destruct (Z.eqb_spec u (bucket s c)) as [->|_]; [|reflexivity].
+      destruct (lookup c l) as [t'|] eqn:El; [|reflexivity]. rewrite (lookup_some_existsb s c l t' El) in Hex. discriminate.
+  - destruct pre as [|x pre]; [discriminate|]. injection Hlen as Hlen. cbn [app].
+    destruct t as [v|l]; [cbn; destruct (u =? bucket s c); reflexivity|].
+    cbn [split_at nlookup]. rewrite lookup_map_snd. destruct (lookup x l) as [t'|]; cbn [option_map].
+    + apply IH. exact Hlen.
+    + destruct (u =? bucket s c); reflexivity.
+Qed.
+
+(* 4a. the same on the runtime model's tries *)
+Theorem zl_split_at d s t pre u c post : List.length pre = d ->
+  RtLaws.zl (pre ++ u :: c :: post) (to_rt (split_at d s t)) =
+  if u =? bucket s c then RtLaws.zl (pre ++ c :: post) (to_rt t) else None.
+Proof.
+  intros Hlen. rewrite !zl_to_rt, (nlookup_split_at d s t pre u c post Hlen). destruct (u =? bucket s c); reflexivity.
+Qed.
+
+(* 4b. ... read on the RESULT of the runtime operation: whatever trie splitUniform(s, depth=d) returns on (the image of)
+   a fitting trie, the payload at (pre, bucket s c, c, post) is the payload the original holds at (pre, c, post), and
+   there is nothing at (pre, u, c, post) for any other u *)
+Theorem split_uniform_lookup d s t T' pre c post : 0 < s -> fits_at d t -> List.length pre = d ->
+  Rt.tmap_depth d (Rt.split_uniform s 0 0) (to_rt t) = Some T' ->
+  RtLaws.zl (pre ++ bucket s c :: c :: post) T' = RtLaws.zl (pre ++ c :: post) (to_rt t) /\
+  forall u, u <> bucket s c -> RtLaws.zl (pre ++ u :: c :: post) T' = None.
+Proof.
+  intros Hs Hf Hlen E. rewrite (split_at_is_tmap_split_uniform d s t Hs Hf) in E. injection E as <-. split.
+  - rewrite (zl_split_at d s t pre _ c post Hlen), Z.eqb_refl. reflexivity.
+  - intros u Hu. rewrite (zl_split_at d s t pre u c post Hlen). destruct (Z.eqb_spec u (bucket s c)); [contradiction|reflexivity].
+Qed.
+
+(* 4c. NestPartProofs.den_split_at on the runtime model: the value the runtime's split tensor has at a point of the
+   partitioned space is the value of the original at the collapsed point when the point is consistent, 0 otherwise *)
+Theorem den_split_uniform d rs t p r r1 r0 s T' : 0 < s -> fits_at d t -> nth_error rs d = Some r -> NoDup rs ->
+  Rt.tmap_depth d (Rt.split_uniform s 0 0) (to_rt t) = Some T' ->
+  rt_den (map p (split_ranks d r1 r0 rs)) T' =
+  if consistent r1 r0 s p then rt_den (map (collapse r r0 p) rs) (to_rt t) else 0.
+Proof.
+  intros Hs Hf Hnth Hnd E. rewrite (split_at_is_tmap_split_uniform d s t Hs Hf) in E. injection E as <-.
+  rewrite <- !den_rt. apply den_split_at; assumption.
+Qed.
+
+(* ---------- examples ---------- *)
+Section Examples.
+Local Open Scope string_scope.
+(* a matrix with ranks M, K; rank K (depth 1) is split by 3: the first row has buckets 0, 3, 9, 21 (bucket 6, 12, .. are
+   empty and do not appear), the second row buckets 0 and 6 *)
+Definition ex_fiber : list (coord * trie) :=
+  [(0, Leaf 1); (1, Leaf 2); (4, Leaf 3); (5, Leaf 4); (9, Leaf 5); (10, Leaf 6); (23, Leaf 7)].
+Definition ex_mat : trie := Node [(0, Node ex_fiber); (3, Node [(2, Leaf 8); (7, Leaf 9)])].
+Definition ex_fiber_split : list (coord * trie) :=
+  [(0, Node [(0, Leaf 1); (1, Leaf 2)]); (3, Node [(4, Leaf 3); (5, Leaf 4)]); (9, Node [(9, Leaf 5); (10, Leaf 6)]);
+   (21, Node [(23, Leaf 7)])].
+Definition ex_mat_split : trie :=
+  Node [(0, Node ex_fiber_split); (3, Node [(0, Node [(2, Leaf 8)]); (6, Node [(7, Leaf 9)])])].
+
+Example ex_fiber_fits : fits ex_fiber.
+Proof. apply fitsb_sound. vm_compute. reflexivity. Qed.
+Example ex_mat_fits : fits_at 1 ex_mat.
+Proof. apply fits_atb_sound. vm_compute. reflexivity. Qed.
+
+Example split_node_is_split_uniform_ex :
+  split_node 3 ex_fiber = ex_fiber_split /\
+  Rt.split_uniform 3 0 0 (to_rt (Node ex_fiber)) = Some (to_rt (Node ex_fiber_split)).
+Proof.
+  split; [vm_compute; reflexivity|]. rewrite (split_node_is_split_uniform 3 ex_fiber eq_refl ex_fiber_fits).
+  vm_compute. reflexivity.
+Qed.
+
+Example split_at_is_tmap_split_uniform_ex :
+  split_at 1 3 ex_mat = ex_mat_split /\
+  Rt.tmap_depth 1 (Rt.split_uniform 3 0 0) (to_rt ex_mat) = Some (to_rt ex_mat_split).
+Proof.
+  split; [vm_compute; reflexivity|]. rewrite (split_at_is_tmap_split_uniform 1 3 ex_mat eq_refl ex_mat_fits).
+  vm_compute. reflexivity.
+Qed.
+
+Example merge1_split_node_ex : Rt.merge1 (to_rt (Node ex_fiber_split)) = Some (to_rt (Node ex_fiber)).
+Proof. exact (merge1_split_node 3 ex_fiber eq_refl ex_fiber_fits). Qed.
+
+Example merge_levels_split_at_ex : Rt.tmap_depth 1 (Rt.merge_levels 1) (to_rt ex_mat_split) = Some (to_rt ex_mat).
+Proof. exact (merge_levels_split_at 1 3 ex_mat eq_refl ex_mat_fits). Qed.
+
+(* the merge of a two-level trie that is NOT a split image (partition coordinates are not buckets) *)
+Example merge_node_is_merge1_ex :
+  let parts := [(2, Node [(0, Leaf 1); (5, Leaf 2)]); (1, Node []); (7, Node [(6, Leaf 3)])] in
+  Rt.merge1 (to_rt (Node parts)) = Some (to_rt (Node [(0, Leaf 1); (5, Leaf 2); (6, Leaf 3)])).
+Proof.
+  cbv zeta. rewrite merge_node_is_merge1; [vm_compute; reflexivity| |apply sortedb_sound; vm_compute; reflexivity].
+  repeat constructor; eexists; reflexivity.
+Qed.
+
+Example merge_node_split_node_ex : merge_node (split_node 3 ex_fiber) = ex_fiber.
+Proof. apply merge_node_split_node, fits_fits_weak; [reflexivity|exact ex_fiber_fits]. Qed.
+
+(* the hypotheses are needed: a negative coordinate, a decreasing fiber *)
+Example split_node_negative_differs :
+  Rt.split_uniform 3 0 0 (to_rt (Node [(-2, Leaf 1); (1, Leaf 2)])) <> Some (to_rt (Node (split_node 3 [(-2, Leaf 1); (1, Leaf 2)]))).
+Proof. vm_compute. discriminate. Qed.
+Example split_node_unsorted_differs :
+  Rt.split_uniform 3 0 0 (to_rt (Node [(1, Leaf 1); (5, Leaf 2); (0, Leaf 3)])) <>
+  Some (to_rt (Node (split_node 3 [(1, Leaf 1); (5, Leaf 2); (0, Leaf 3)]))).
+Proof. vm_compute. discriminate. Qed.
+
+Example split_uniform_lookup_ex : forall T', Rt.tmap_depth 1 (Rt.split_uniform 3 0 0) (to_rt ex_mat) = Some T' ->
+  RtLaws.zl [0; 9; 10] T' = Some (Rt.VInt 6) /\ RtLaws.zl [0; 3; 10] T' = None /\ RtLaws.zl [3; 6; 7] T' = Some (Rt.VInt 9).
+Proof.
+  intros T' E.
+  destruct (split_uniform_lookup 1 3 ex_mat T' [0] 10 [] eq_refl ex_mat_fits eq_refl E) as [E1 E2].
+  destruct (split_uniform_lookup 1 3 ex_mat T' [3] 7 [] eq_refl ex_mat_fits eq_refl E) as [E3 _].
+  split; [exact E1|]. split; [apply E2; vm_compute; discriminate|exact E3].
+Qed.
+
+Example den_split_uniform_ex : forall T', Rt.tmap_depth 1 (Rt.split_uniform 3 0 0) (to_rt ex_mat) = Some T' ->
+  let p (u c : Z) : point := fun r => if String.eqb r "M" then 0 else if String.eqb r "K1" then u else if String.eqb r "K0" then c else 0 in
+  rt_den (map (p 9 10) ["M"; "K1"; "K0"]) T' = 6 /\ rt_den (map (p 3 10) ["M"; "K1"; "K0"]) T' = 0.
+Proof.
+  intros T' E p. change ["M"; "K1"; "K0"] with (split_ranks 1 "K1" "K0" ["M"; "K"]). split.
+  - etransitivity; [apply (den_split_uniform 1 ["M"; "K"] ex_mat (p 9 10) "K" "K1" "K0" 3 T' eq_refl ex_mat_fits eq_refl); [|exact E]|vm_compute; reflexivity].
+    repeat constructor; cbn; intuition discriminate.
+  - etransitivity; [apply (den_split_uniform 1 ["M"; "K"] ex_mat (p 3 10) "K" "K1" "K0" 3 T' eq_refl ex_mat_fits eq_refl); [|exact E]|vm_compute; reflexivity].
+    repeat constructor; cbn; intuition discriminate.
+Qed.
+End Examples.
